@@ -1,4 +1,5 @@
 import StyluaModel.Model.Trivia
+import StyluaModel.Model.Eof
 import Driver.Util
 /- `trivia <lf|crlf> <item;item;...>`: leading trivia of the first token of a file, rendered.
    items: w0 | w1 | L<hex> | B<level>.<hex> | S<hex> -/
@@ -36,5 +37,14 @@ def handle (eol body : String) : String :=
   let e := if eol == "crlf" then ['\r', '\n'] else ['\n']
   let outs := load e .leading (items.filterMap id)
   Driver.hexOfChars (outs.flatMap (renderOut e))
+
+/-- `eof <lf|crlf> <format 0|1> <items>`: the trivia in front of the end-of-file token -/
+def handleEof (eol fmt body : String) : String :=
+  let items := if body == "-" then [] else (body.splitOn ";").map parseItem
+  if items.any (·.isNone) then "bad-op" else
+  let e := if eol == "crlf" then ['\r', '\n'] else ['\n']
+  match StyluaModel.Eof.fmtEof e (fmt == "1") (items.filterMap id) with
+  | none => "untouched"
+  | some outs => "x" ++ Driver.hexOfChars (outs.flatMap (renderOut e))
 
 end Driver.TriviaProto
